@@ -109,12 +109,12 @@ def zero_test(de):
         a, b = de[2], de[3]
         ca = ir.peel(a, casts=False)
         cb = ir.peel(b, casts=False)
-        if cb[0] == 'const' and cb[1] == 0:
+        if ir.const_value(cb) == 0 and isinstance(ir.const_value(cb), int):
             if de[1] in ('Eq', 'Le'):
                 res = (a, 'nonzero', 'zero')
             elif de[1] in ('Ne', 'Gt'):
                 res = (a, 'zero', 'nonzero')
-        elif ca[0] == 'const' and ca[1] == 0:
+        elif ir.const_value(ca) == 0 and isinstance(ir.const_value(ca), int):
             if de[1] in ('Eq', 'Ge'):
                 res = (b, 'nonzero', 'zero')
             elif de[1] in ('Ne', 'Lt'):
@@ -127,9 +127,9 @@ def zero_test(de):
     return v, c0, other
 
 
-def derives_from_site(e, body_path, bb):
-    """Is `e` the value produced by the call at (body, bb), modulo plumbing: payload extraction of
-    Poll/Result/ControlFlow, `?` (Try::branch), casts, moves and phi joins?"""
+def derives_from_site(e, fid, bb):
+    """Is the lifted expression `e` the value produced by the call at (frame id, block), modulo plumbing:
+    payload extraction of Poll/Result/ControlFlow, `?` (Try::branch), casts, moves and phi joins?"""
     e = ir.peel(e)
     while True:
         if e[0] in ('field', 'variant'):
@@ -137,10 +137,14 @@ def derives_from_site(e, body_path, bb):
         elif e[0] == 'call' and e[1].endswith("std::ops::Try>::branch") and len(e[2]) == 1:
             e = ir.peel(e[2][0])
         elif e[0] == 'phi':
-            return any(derives_from_site(x, body_path, bb) for x in e[1])
+            return any(derives_from_site(x, fid, bb) for x in e[1])
         else:
             break
-    return e[0] == 'call' and e[3] == (body_path, bb)
+    return e[0] == 'call' and e[3] == (fid, bb)
+
+
+def mentions_site(e, fid, bb):
+    return any(x[0] == 'call' and x[3] == (fid, bb) for x in ir.walk(e))
 
 
 def frame_paths_to_return(g, ev, start, is_event, limit=3000):
